@@ -204,7 +204,42 @@ def listing_fixpoint_shard(shard):
     return p
 
 
+OVERWRITE_SPECS = [("addi", 1, 2, 3), ("add", 4, 5, 6), ("lw", 7, 8, -4), ("sw", 9, 10, 8), ("beq", 1, 2, -8), ("jal", 1, 12, 0), ("lui", 3, 0x12345, 0),
+                   ("jalr", 1, 2, 4), ("ecall", 0, 0, 0), ("slli", 5, 6, 31), ("csrrw", 1, 0x300, 2), ("mul", 1, 1, 1)]
+
+
+def overwrite_shard(shard):
+    """The listing shows the instruction that is stored NOW: write A at an address, look at the listing, overwrite it in
+    place with B, look again — for every ordered pair (A, B) at three addresses, with a neighbour that stays."""
+    first = shard
+    p = Partial()
+    A = OVERWRITE_SPECS[first]
+    for B in OVERWRITE_SPECS:
+        for addr in (0, 4, 4092):
+            sim = RiscvSimulation()
+            im = sim.state.instruction_memory
+            keep = build(("addi", 9, 9, 9), addr + 4)
+            im.write_instruction(addr, build(A, addr))
+            im.write_instruction(addr + 4, keep)
+            first_listing = [t for (_a, _h), t, _s in sim.get_instruction_memory_entries()]
+            ob = build(B, addr)
+            im.write_instruction(addr, ob)
+            listing = {a: t for (a, _h), t, _s in sim.get_instruction_memory_entries()}
+            p.evaluations += 1
+            if A != B:
+                p.nontrivial += 1
+                p.counters["listing-after-in-place-overwrite"] += 1
+            exp = {addr: repr(ob), addr + 4: repr(keep)}
+            if listing != exp or first_listing != [repr(build(A, addr)), repr(keep)]:
+                p.violation(dict(oracle="listing-current", field="stale"), dict(kind="overwrite", a=list(A), b=list(B), addr=addr),
+                            f"write {A} at {addr}, list, overwrite with {B}, list: listing {listing}, stored {exp}", size=(first, addr))
+    return p
+
+
 def replay(case):
+    if case["kind"] == "overwrite":
+        part = overwrite_shard(OVERWRITE_SPECS.index(tuple(case["a"])))
+        return [(lst[0][1], lst[0][3]) for _k, (n, lst) in part.viol.items()]
     p = Partial()
     if case["kind"] == "one":
         spec = tuple(case["spec"])
@@ -228,7 +263,8 @@ def run(ctx):
                 "R-type: every register in every operand position + 5^3 combinations (all 32^3 in thorough); I-type ALU, loads, jalr, stores: all 4096 "
                 "immediates per mnemonic; shifts: all 32 amounts; branches: all 4096 even 13-bit immediates per mnemonic; lui/auipc: 257-stride + boundaries "
                 "(all 2^20 in thorough); jal: boundary immediates at every address (all 2^20 even immediates in thorough); csr*: all 4096 csr numbers, all 32 "
-                "uimm; ecall, ebreak. Second clause: listing -> text -> load -> listing is a fixed point for the C04 layout corpus. FENCE is excluded by the "
+                "uimm; ecall, ebreak. Second clause: listing -> text -> load -> listing is a fixed point for the C04 layout corpus; and the listing shows what is stored now: "
+                "write A, list, overwrite in place with B, list, for every ordered pair of 12 instructions at three addresses. FENCE is excluded by the "
                 "property. Non-trivial = instruction with a non-zero register or immediate.")
     t0 = time.time()
     shards = []
@@ -239,6 +275,10 @@ def run(ctx):
             shards.append((g, thorough, ctx.seed, part, parts))
     part = pmap(batch_shard, shards)
     ctx.space("print-parse-round-trip", part, t0, groups=len(groups()))
+    t0 = time.time()
+    part = pmap(overwrite_shard, list(range(len(OVERWRITE_SPECS))))
+    ctx.space("listing-after-in-place-overwrite", part, t0, pairs=len(OVERWRITE_SPECS) ** 2, addresses=3)
+    ctx.require("listing-after-in-place-overwrite")
     t0 = time.time()
     Ls = (1, 2)
     part = pmap(listing_fixpoint_shard, [(L, f) for L in Ls for f in range(len(c04.ALL_KINDS))])
